@@ -74,6 +74,15 @@ DEFCFG = {'backend': 'flat', 'dtype': 'int16', 'offset': 0, 'junk': 0, 'as': 'li
 # 'defoff' (stage 4: the `offset` keyword is NOT passed -- header offset 0 through the constructor's default; needs offset == 0);
 # any backend: 'idt' (stage 4: integer dtype of an ndarray / NumPy-scalar ROW index when 'as' == 'array': absent = int64;
 # 'uint64', 'uint32', 'uint16', 'uint8', 'int32', 'int16', 'int8' -- every integer dtype indexes a NumPy array alike)
+# stage 6 (fifth seeding round): the ENVIRONMENT and the STORAGE FORM of the files.  File backends (flat / npy / cbin):
+# 'rel' (the paths are given RELATIVE to the working directory of the moment the reader is built), 'pstr' (paths given as str
+# instead of pathlib.Path; through get_ephys_reader only), 'chdir' (the process changes its working directory between the
+# construction of the reader and every read / attribute access: 'decoy' = into a directory that holds files of the SAME names
+# and sizes with other sample values, 'empty' = into a directory without such files; the recording is the files that were
+# given, wherever the process stands afterwards), 'touch' (with 'chdir': reader[0] -- the first file only -- is read before
+# the change of directory).  .npy / in-memory array: 'mem' = 'F' (the (n, c) array is Fortran-ordered: np.save writes
+# fortran_order True, as for the transpose of a channel-major array), in-memory array only: 'mem' = 'strided' (a
+# non-contiguous view: every second row, inner columns, of a larger array).  .npy: 'npyver' = 2 / 3 (header format 2.0 / 3.0).
 IDTMAX = {'uint64': 2 ** 63, 'uint32': 2 ** 32 - 1, 'uint16': 65535, 'uint8': 255, 'int32': 2 ** 31 - 1, 'int16': 32767, 'int8': 127}
 EXN = {'IndexError': 1, 'ValueError': 2, 'AssertionError': 3, 'ZeroDivisionError': 4, 'NotImplementedError': 5, 'TypeError': 6}
 
@@ -175,6 +184,18 @@ def _layout_ok(sizes, c, cfg, allow_empty=False):
     if cfg.get('bo') and (ITEMSIZE[cfg['dtype']] == 1 or cfg.get('dtform') in ('name', 'type')):
         return False
     if cfg.get('defoff') and (cfg['backend'] != 'flat' or cfg['offset'] != 0):
+        return False
+    if (cfg.get('rel') or cfg.get('pstr') or cfg.get('chdir')) and cfg['backend'] == 'array':
+        return False
+    if cfg.get('chdir') not in (None, 'decoy', 'empty') or (cfg.get('touch') and not cfg.get('chdir')):
+        return False
+    if cfg.get('pstr') and cfg.get('direct'):
+        return False
+    if cfg.get('mem') not in (None, 'F', 'strided') or (cfg.get('mem') and cfg['backend'] not in ('npy', 'array')):
+        return False
+    if cfg.get('mem') == 'strided' and cfg['backend'] != 'array':
+        return False
+    if cfg.get('npyver') not in (None, 2, 3) or (cfg.get('npyver') and cfg['backend'] != 'npy'):
         return False
     return True
 
@@ -393,6 +414,32 @@ CORPUS = [
     _attrs([3, 6], 2, rate=0.01), _attrs([6, 6], 2, rate=0.01), _attrs([6, 5], 2, rate=0.01), _attrs([2, 6, 12], 2, rate=0.01),
     _attrs([6], 2, backend='array', rate=0.01), _attrs([12], 2, backend='npy', rate=0.01), _attrs([3], 2, backend='array', rate=0.005),
     _attrs([6], 2, backend='npy', rate=0.005, aslist=True),
+    # ---- round-5 seed C01-m13: a .npy file / an in-memory array holding the (n, c) recording in FORTRAN order (np.save of the
+    # transpose of a channel-major array writes fortran_order True; a reader that maps the data area itself as C-ordered returns
+    # the right shape and scrambled values), header formats 2.0 / 3.0, a non-contiguous in-memory view
+    _get([4], 3, ['slice', 1, 4, None], None, backend='npy', mem='F'), _get([5], 2, ['int', 3], ['list', [1, 0]], backend='npy', mem='F', aslist=True),
+    _get([4], 3, ['list', [0, 2, 3]], ['slice', None, None, -1], backend='npy', mem='F', dtype='float32', npyver=2, **{'as': 'array'}),
+    _get([3], 4, ['slice', None, None, None], None, backend='npy', mem='F', npyver=3, pstr=True),
+    _get([4], 3, ['slice', 1, 4, None], None, backend='npy', npyver=2), _get([4], 3, ['int', -1], None, backend='npy', npyver=3),
+    _get([4], 3, ['slice', 1, 4, None], ['list', [2, 0]], backend='array', mem='F'), _get([4], 3, ['list', [1, 3]], None, backend='array', mem='strided'),
+    _attrs([4], 3, backend='npy', mem='F'), _attrs([4], 3, backend='array', mem='F'), _attrs([4], 3, backend='array', mem='strided'),
+    _attrs([4], 3, backend='npy', mem='F', npyver=2, dtype='float64'),
+    # ---- round-5 seed C01-m12: paths given RELATIVE to the working directory, and the process changes directory between the
+    # construction of the reader and the reads (into a directory with files of the same names and sizes / without them); the first
+    # file read before the move or not.  A reader that opens its files lazily from the stored relative paths reads the other files.
+    _get([1, 3, 2], 3, ['slice', 1, 5, None], None, rel=True), _get([1, 3, 2], 3, ['slice', 1, 5, None], None, rel=True, chdir='decoy'),
+    _get([1, 3, 2], 3, ['int', 4], ['list', [2, 0]], rel=True, chdir='decoy', touch=True),
+    _get([1, 3, 2], 3, ['list', [0, 3, 5]], None, rel=True, chdir='empty', **{'as': 'array'}),
+    _get([2, 3], 2, ['slice', None, None, None], ['list', [1, 0]], rel=True, chdir='decoy', dtype='float32', offset=7, direct=True),
+    _get([4], 2, ['slice', 1, -1, None], None, rel=True, chdir='decoy', pstr=True, offset=1),
+    _get([1, 3, 2], 3, ['slice', 1, 5, None], None, chdir='decoy'), _get([1, 3, 2], 3, ['int', -1], None, chdir='empty', pstr=True),
+    _get([4], 2, ['slice', 1, -1, None], None, backend='npy', rel=True, chdir='decoy'),
+    _get([4], 2, ['int', 2], None, backend='npy', rel=True, chdir='empty', mem='F', pstr=True),
+    _get([6], 3, ['slice', 1, 5, None], ['list', [2, 0]], backend='cbin', d=2, rel=True, chdir='decoy'),
+    _get([6], 3, ['int', -1], None, backend='cbin', d=4, rel=True, chdir='empty', aslist=True),
+    _attrs([1, 3, 2], 3, rel=True, chdir='decoy'), _attrs([2, 3], 2, rel=True, chdir='empty', offset=7, dtype='int32'),
+    _attrs([5], 2, backend='npy', rel=True, chdir='decoy'), _attrs([6], 3, backend='cbin', d=4, rel=True, chdir='decoy'),
+    _attrs([1, 3, 2], 3, pstr=True),
 ]
 
 
@@ -774,7 +821,7 @@ def _any_cases(nmax):
 def generate(tier, rng):
     cases = [c for c in CORPUS]
     if tier == 'search':
-        return _stage4_axes(cases + _random(rng, 4000, 600))
+        return _stage6_axes(_stage4_axes(cases + _random(rng, 4000, 600)))
     quick = tier == 'quick'
     base = _exhaustive(4, 5) if quick else _exhaustive(6, 7)
     cases += base
@@ -797,7 +844,7 @@ def generate(tier, rng):
         if c['kind'] == 'get' and k % 3 == 1 and not c['inp']['cfg'].get('used'):
             c = {'kind': c['kind'], 'inp': dict(c['inp'], cfg=dict(c['inp']['cfg'], used=True))}
         out.append(c)
-    return _stage4_axes(out)
+    return _stage6_axes(_stage4_axes(out))
 
 
 IDT_ROT = ('uint64', 'int32', 'uint8', 'uint64', 'uint32', 'int16', 'uint16', 'int8')
@@ -828,6 +875,47 @@ def _stage4_axes(cases):
     return out
 
 
+def _stage6_axes(cases):
+    """stage 6 (fifth seeding round): the environment and the storage form, drawn in rotation over EVERY generated read / attribute
+    case (so over every layout, item, selector, dtype, offset they carry).  File backends: one case in four gives its paths
+    relative to the working directory, and of those three in four change the working directory between the construction and the
+    reads (decoy directory with same-named files of the same sizes / empty directory), every second of them after reader[0]
+    has been read; one in twelve changes directory with absolute paths; one in five gives the paths as str.  Every second .npy
+    file and every third in-memory array is Fortran-ordered (another third of the arrays is a non-contiguous view); .npy header
+    formats 1.0 / 2.0 / 3.0 in rotation."""
+    out = []
+    for k, c in enumerate(cases):
+        if c['kind'] in ('get', 'attrs'):
+            cfg = c['inp']['cfg']
+            new = {}
+            be = cfg['backend']
+            explicit = any(key in cfg for key in ('rel', 'chdir', 'pstr', 'mem', 'npyver'))
+            if not explicit and be in ('flat', 'npy', 'cbin'):
+                if k % 4 == 1:
+                    new['rel'] = True
+                    ch = ('decoy', 'empty', 'decoy', None)[(k // 4) % 4]
+                    if ch:
+                        new['chdir'] = ch
+                        if c['kind'] == 'get' and (k // 16) % 2:
+                            new['touch'] = True
+                elif k % 12 == 3:
+                    new['chdir'] = ('decoy', 'empty')[(k // 12) % 2]
+                if k % 5 == 2 and not cfg.get('direct'):
+                    new['pstr'] = True
+            if not explicit and be == 'npy':
+                if k % 2 == 0:
+                    new['mem'] = 'F'
+                if k % 3:
+                    new['npyver'] = 1 + k % 3
+            if not explicit and be == 'array' and k % 3:
+                new['mem'] = ('F', 'strided')[k % 3 - 1]
+            if new:
+                c = {'kind': c['kind'], 'inp': dict(c['inp'], cfg=dict(cfg, **new))}
+                assert valid_case(c), c
+        out.append(c)
+    return out
+
+
 # ---- implementation side ------------------------------------------------------------------------
 
 _PROC = {}
@@ -839,7 +927,7 @@ def _tmp():
     pid = os.getpid()
     if _PROC.get('pid') != pid:
         base = os.environ.get('VT_WORK') or tempfile.gettempdir()
-        _PROC.update(pid=pid, dir=tempfile.mkdtemp(prefix='c01_', dir=base), k=0)
+        _PROC.update(pid=pid, dir=os.path.abspath(tempfile.mkdtemp(prefix='c01_', dir=base)), k=0)
     _PROC['k'] += 1
     return os.path.join(_PROC['dir'], 'k%d_' % _PROC['k'])
 
@@ -868,8 +956,81 @@ def matrix(n, c, dtype):
     return np.arange(n * c, dtype=np.int64).reshape(n, c).astype(dtype)
 
 
+def _mem(A, cfg):
+    """the (n, c) array in the memory order of cfg['mem'] (same values, shape and dtype)"""
+    import numpy as np
+    mem = cfg.get('mem')
+    if mem == 'F':
+        # what np.save / get_ephys_reader receive for the transpose of a channel-major (c, n) array
+        B = np.ascontiguousarray(A.T).T
+        assert B.flags.f_contiguous and B.shape == A.shape
+        return B
+    if mem == 'strided':
+        big = np.zeros((2 * A.shape[0] + 1, A.shape[1] + 3), dtype=A.dtype)
+        B = big[1::2, 2:2 + A.shape[1]]
+        B[...] = A
+        assert B.shape == A.shape
+        return B
+    return A
+
+
+def _write_files(d, sizes, c, cfg, A):
+    """write the files of the recording whose concatenation is A under the name prefix d; returns the main paths (str)"""
+    import numpy as np
+    be = cfg['backend']
+    if be == 'flat':
+        paths, o = [], 0
+        for j, s in enumerate(sizes):
+            # names in DEcreasing lexicographic order: the recording is the files in the order GIVEN, so a reader
+            # that sorts / globs its paths must be seen to differ
+            p = d + 'f%02d%s' % (len(sizes) - 1 - j, cfg.get('ext', '.bin'))
+            with open(p, 'wb') as f:
+                f.write(bytes((37 * k + 11) % 251 for k in range(cfg['offset'])))
+                f.write(A[o:o + s].tobytes())
+                f.write(b'\x5a' * cfg['junk'])
+            o += s
+            paths.append(p)
+        return paths
+    if be == 'npy':
+        p = d + 'a.npy'
+        B = _mem(A, cfg)
+        if cfg.get('npyver'):
+            import numpy.lib.format as fmt
+            with open(p, 'wb') as f:
+                fmt.write_array(f, B, version=(cfg['npyver'], 0))
+        else:
+            np.save(p, B)
+        return [p]
+    if be == 'cbin':
+        import mtscomp
+        from pathlib import Path
+        p = Path(d + 'a.bin')
+        A.tofile(p)
+        # chunk_duration d/10 s at 10 Hz = chunks of d samples
+        mtscomp.compress(p, Path(d + 'a.cbin'), Path(d + 'a.ch'), sample_rate=10., n_channels=c, dtype=A.dtype,
+                         chunk_duration=cfg['d'] / 10., n_threads=1, check_after_compress=False, quiet=True)
+        return [d + 'a.cbin']
+    raise ValueError(be)
+
+
+def _decoy(d, sizes, c, cfg):
+    """stage 6: a directory d + 'cd' that holds files of the same names and sizes as the recording's, with every sample
+    value one higher (cfg['chdir'] == 'decoy'), or no file at all ('empty'); returns the directory"""
+    import numpy as np
+    other = d + 'cd'
+    os.mkdir(other)
+    if cfg['chdir'] == 'decoy':
+        dtype = np.dtype(cfg['dtype'])
+        if cfg.get('bo'):
+            dtype = dtype.newbyteorder('S')
+        A1 = (np.arange(sum(sizes) * c, dtype=np.int64).reshape(sum(sizes), c) + 1).astype(dtype)
+        _write_files(os.path.join(other, os.path.basename(d)), sizes, c, cfg, A1)
+    return other
+
+
 def make_reader(d, sizes, c, cfg):
-    """Materialise the abstract recording; returns (reader, closer, info)."""
+    """Materialise the abstract recording; returns (reader, closer, info).  With cfg['rel'] the caller has made the
+    directory of d the working directory: the paths are then given relative to it."""
     import numpy as np
     from pathlib import Path
     from phylib.io.traces import get_ephys_reader, FlatEphysReader
@@ -882,19 +1043,18 @@ def make_reader(d, sizes, c, cfg):
     be = cfg['backend']
     rate = cfg['rate']
     info = {}
+
+    def P(p):
+        if cfg.get('rel'):
+            assert os.path.samefile(os.getcwd(), os.path.dirname(p))
+            p = os.path.basename(p)
+        return p if cfg.get('pstr') else Path(p)
+    if be == 'array':
+        return get_ephys_reader(_mem(A, cfg), sample_rate=rate), (lambda: None), info
+    files = _write_files(d, sizes, c, cfg, A)
     if be == 'flat':
-        paths, o = [], 0
-        for j, s in enumerate(sizes):
-            # names in DEcreasing lexicographic order: the recording is the files in the order GIVEN, so a reader
-            # that sorts / globs its paths must be seen to differ
-            p = Path(d + 'f%02d%s' % (len(sizes) - 1 - j, cfg.get('ext', '.bin')))
-            with open(p, 'wb') as f:
-                f.write(bytes((37 * k + 11) % 251 for k in range(cfg['offset'])))
-                f.write(A[o:o + s].tobytes())
-                f.write(b'\x5a' * cfg['junk'])
-            o += s
-            paths.append(p)
-        info['fsizes'] = [os.path.getsize(p) for p in paths]
+        paths = [P(p) for p in files]
+        info['fsizes'] = [os.path.getsize(p) for p in files]
         arg = paths if (len(paths) > 1 or cfg['offset'] % 2 == 0) else paths[0]
         darg = {None: dtype, 'str': dtype.str, 'name': dtype.name, 'type': dtype.type}[cfg.get('dtform')]
         assert np.dtype(darg) == dtype
@@ -902,20 +1062,12 @@ def make_reader(d, sizes, c, cfg):
         kw = {} if cfg.get('defoff') else {'offset': cfg['offset']}
         r = make(arg, sample_rate=rate, dtype=darg, n_channels=c, **kw)
         return r, (lambda: None), info
-    if be == 'array':
-        return get_ephys_reader(A, sample_rate=rate), (lambda: None), info
     if be == 'npy':
-        p = Path(d + 'a.npy')
-        np.save(p, A)
+        p = P(files[0])
         return get_ephys_reader([p] if cfg.get('aslist') else p, sample_rate=rate), (lambda: None), info
     if be == 'cbin':
         import mtscomp
-        p = Path(d + 'a.bin')
-        A.tofile(p)
-        # chunk_duration d/10 s at 10 Hz = chunks of d samples
-        mtscomp.compress(p, Path(d + 'a.cbin'), Path(d + 'a.ch'), sample_rate=10., n_channels=c, dtype=dtype,
-                         chunk_duration=cfg['d'] / 10., n_threads=1, check_after_compress=False, quiet=True)
-        arg = Path(d + 'a.cbin')
+        arg = P(files[0])
         if cfg.get('aslist') or cfg.get('extra'):
             arg = [arg]
         for j, m in enumerate(cfg.get('extra') or []):
@@ -925,7 +1077,7 @@ def make_reader(d, sizes, c, cfg):
             mtscomp.compress(pj, Path(d + 'x%d.cbin' % j), Path(d + 'x%d.ch' % j), sample_rate=10., n_channels=c,
                              dtype=dtype, chunk_duration=cfg['d'] / 10., n_threads=1, check_after_compress=False,
                              quiet=True)
-            arg.append(Path(d + 'x%d.cbin' % j))
+            arg.append(P(d + 'x%d.cbin' % j))
         r = get_ephys_reader(arg)
         return r, r.reader.close, info
     raise ValueError(be)
@@ -1034,8 +1186,16 @@ def run_case(case):
     d = _tmp()
     r = None
     close = lambda: None  # noqa
+    cwd0 = os.getcwd()
     try:
+        if cfg.get('rel'):
+            os.chdir(os.path.dirname(d))          # the relative paths are given from the directory of the files
         r, close, info = make_reader(d, i['sizes'], i['c'], cfg)
+        if cfg.get('chdir'):
+            # stage 6: the process moves to another directory between the construction and the reads below
+            if cfg.get('touch') and case['kind'] != 'attrs':
+                r[0]
+            os.chdir(_decoy(d, i['sizes'], i['c'], cfg))
         if case['kind'] == 'attrs':
             shape = tuple(r.shape)
             rate = 10.0 if cfg['backend'] == 'cbin' else float(cfg['rate'])
@@ -1069,6 +1229,10 @@ def run_case(case):
         except Exception:
             pass
         del r
+        os.chdir(cwd0)
+        if cfg.get('chdir'):
+            import shutil
+            shutil.rmtree(d + 'cd', ignore_errors=True)
         _cleanup(d)
 
 
@@ -1215,6 +1379,14 @@ def dist(case, obs):
         out.append('flat.dtype_arg=%s' % {None: 'np.dtype', 'str': 'str-code', 'name': 'str-name', 'type': 'scalar-type'}[cfg.get('dtform')])
         out.append('flat.via=%s' % ('FlatEphysReader' if cfg.get('direct') else 'get_ephys_reader'))
         out.append('flat.offset_keyword=%s' % ('default' if cfg.get('defoff') else 'given'))
+    if cfg['backend'] != 'array':
+        out.append('paths.form=%s-%s' % ('relative' if cfg.get('rel') else 'absolute', 'str' if cfg.get('pstr') else 'Path'))
+        out.append('cwd_between_construction_and_read=%s' % ({'decoy': 'other-dir-with-same-named-files', 'empty': 'other-dir-empty'}.get(cfg.get('chdir'), 'unchanged') +
+                                                             ('-after-reading-first-file' if cfg.get('touch') else '')))
+    if cfg['backend'] in ('npy', 'array'):
+        out.append('memory_order=%s' % {None: 'C', 'F': 'Fortran', 'strided': 'non-contiguous-view'}[cfg.get('mem')])
+    if cfg['backend'] == 'npy':
+        out.append('npy.header_version=%d.0' % (cfg.get('npyver') or 1))
     if k == 'attrs':
         rate = 10.0 if cfg['backend'] == 'cbin' else float(cfg['rate'])
         cs, last = int(round(600.0 * rate)), i['sizes'][-1]
@@ -1296,13 +1468,15 @@ def shrink(case):
             c2 = dict(cfg)
             c2[key] = DEFCFG[key]
             cands.append(mk(cfg=c2))
-    for key in ('used', 'tuple1', 'aslist', 'bo', 'dtform', 'direct', 'defoff', 'idt'):
+    for key in ('used', 'tuple1', 'aslist', 'bo', 'dtform', 'direct', 'defoff', 'idt', 'touch', 'pstr', 'npyver', 'mem', 'chdir', 'rel'):
         if cfg.get(key):
             c2 = dict(cfg)
             del c2[key]
             cands.append(mk(cfg=c2))
-    if cfg['backend'] in ('npy', 'cbin'):
+    if cfg['backend'] in ('npy', 'cbin') and not (cfg.get('rel') or cfg.get('chdir') or cfg.get('pstr') or cfg.get('npyver')):
         cands.append(mk(cfg=dict(cfg, backend='array')))
+    if cfg.get('chdir') == 'decoy':
+        cands.append(mk(cfg=dict(cfg, chdir='empty')))
     sizes = i['sizes']
     n = sum(sizes)
     if k == 'get':
